@@ -9,7 +9,7 @@ from __future__ import annotations
 import ast
 
 from ..astutil import deref, ancestors, calls_in, dotted, enclosing_stmt, is_within, src, walk_local
-from ..cfg import cfg_of
+from ..cfg import cfg_of, deref_at
 from ..loader import AnalysisError
 from ..terms import Evaluator, alts, contains, find, show, walk
 from .common import stream_producers, evaluate, func_label, loc, nested_by_role, repo_cls, self_calls
@@ -70,9 +70,13 @@ def r2_accounting(ctx, p):
     if ctor is None:
         raise AnalysisError('C01.R2: per-file record constructor (stream_start=, stream_end=) not found')
     kws = {k.arg: k.value for k in ctor.keywords}
-    G = dotted(kws['stream_start'])
+
+    def _d(e):
+        return deref_at(p.node, e) if isinstance(e, ast.Name) else e
+
+    G = dotted(_d(kws['stream_start']))
     ctx.check(
-        G is not None and dotted(kws['stream_end']) == G,
+        G is not None and dotted(_d(kws['stream_end'])) == G,
         'C01.R2',
         f'{func_label(p)}|file-offsets-from-stream-counter',
         loc(p, ctor),
@@ -102,7 +106,7 @@ def r2_accounting(ctx, p):
             continue
         before = block[: block.index(yst)] if yst in block else []
         incs = [s for s in before if isinstance(s, ast.AugAssign) and isinstance(s.op, ast.Add) and dotted(s.target) == G]
-        good = len(incs) == 1 and want(incs[0].value)
+        good = len(incs) == 1 and (want(incs[0].value) or want(_d(incs[0].value)))
         ctx.check(
             good,
             'C01.R2',
@@ -114,7 +118,7 @@ def r2_accounting(ctx, p):
         if not is_pad and fvar:
             ends = [s for s in before if isinstance(s, ast.AugAssign) and isinstance(s.op, ast.Add) and dotted(s.target) == f'{fvar}.stream_end']
             ctx.check(
-                len(ends) == 1 and want(ends[0].value),
+                len(ends) == 1 and (want(ends[0].value) or want(_d(ends[0].value))),
                 'C01.R2',
                 f'{func_label(p)}|file-end-advanced-once-per-yield',
                 loc(p, yst),
